@@ -45,6 +45,10 @@ CHECKS = {
         technique='property-based round-trip testing over generated configuration pairs (independent, identity-sharing, k random edits); canonical-form oracle independent of Fiddle ==',
         text='Pairs (old, new) are generated as two independent DAG recipes, as a shallow top-level copy sharing every sub-object with old and then edited, or as up to 6 random edits (value change, callable swap with and without dropped arguments, argument/tag add/remove, alias created/broken, subtree moved, list/dict growth and shrink) of a deep copy; build_diff must succeed and apply_diff on a copy of old must yield the canonical form of new in place, leaving diff and new untouched; the self-diff must be empty. Positional arguments and changed elements inside aligned tuples are listed known findings, excluded from most of the campaign and re-confirmed by replay.',
         note='Trusted: harness/canon.py, the edit interpreter in props/c10.py. Diff shape is never judged.'),
+    'C14': dict(
+        technique='property-based testing: generated tagged DAGs, frame-condition oracle from an independent graph walk, dict-of-sets model for tag operation histories, round trips through five subsystems',
+        text='Generated DAGs carry tags from a class hierarchy on keyword, positional-only, *args and **kwargs arguments (with and without values), Annotated tags, shared tagged nodes and TaggedValues in containers; set_tagged / select(tag=).replace must set exactly the arguments whose tag set contains a subclass of T and change nothing else; list_tags must equal the reference union; generated add/remove/set/clear/get histories (by name and index, valid and invalid) are compared with a set model; tags must survive copy, deepcopy, pickle, cast, JSON and diff application; TaggedValues build to their value or fail.',
+        note='Trusted: harness/canon.py, TagModel in props/c14.py. Tags on *args slots that do not exist are skipped as unspecified.'),
 }
 
 PENDING = {}
